@@ -179,28 +179,12 @@ def run(ctx):
                 b, t = ctor[0]
                 fo = prim.origin_of_operand(fn, t.args[1]).strip()
                 desc = fo.fmt()
-                if fo.k == "const":
-                    got = fo.a.get("v")
-                elif fo.k == "call" and fo.a["name"] == "starts_with":
-                    pre = fo.kids[1].strip()
-                    subj = fo.kids[0]
-                    pre_v = pre.a.get("v") if pre.k == "const" else None
-                    # the subject must be the primary's own token: args[i-1] evaluated after the single `i += 1` of the arm
-                    idx = [x for x in subj.walk() if x.k == "index"]
-                    tok_ok = False
-                    if idx:
-                        ix = idx[0].kids[1].strip()
-                        core = ix.kids[0].strip() if ix.k == "field" and ix.kids else ix
-                        minus1 = core.k == "bin" and core.a in ("Sub", "SubWithOverflow") and any(c.get("v") == 1 for c in core.consts())
-                        ivar = [x.a.get("local") for x in core.walk() if x.k == "var"]
-                        incs = a.local_writes(ivar[0]) if ivar else []
-                        tok_ok = minus1 and len(incs) == 1 and fn.dominates(incs[0][0], b)
-                    if isinstance(pre_v, str) and tok_ok:
-                        got = tok.startswith(pre_v)
-                    desc += " (token subject ok=%s)" % tok_ok
-                # the pattern operand: args[i] after the increment
+                # the flag is a constant or a test of the primary's own token (args[i] before the arm's `i += 1`,
+                # args[i - 1] after it), evaluated for this token
+                got = C.token_predicate(fn, a, fo, b, tok)
+                # the pattern operand: the token that follows the primary, unchanged
                 po = prim.origin_of_operand(fn, t.args[0]).strip()
-                ok_pat = po.k == "index" and any(x.k == "arg" and x.a["name"] == "args" for x in po.walk())
+                ok_pat = C.arm_token_abs(fn, a, po, b) == 1
                 if id(a) not in seen_arms:
                     ctx.ob("R2", "pattern-operand:%s" % "|".join(a.lits), ok_pat, "the glob is %s; must be the operand token unchanged" % po.fmt(), fn=fn, where=prim.site(fn, b), how="provenance slice")
             seen_arms.add(id(a))
